@@ -499,6 +499,88 @@ def _inv_override_extra():
     edzed.Override('o0').connect(s, input=s, override=s)
 
 
+def _inv_override_empty_group():
+    s = edzed.Input('s0', initdef=0)
+    edzed.Override('o0').connect(input=(), override=s)
+
+
+def _inv_override_empty_group2():
+    s = edzed.Input('s0', initdef=0)
+    edzed.Override('o0').connect(input=s, override=[])
+
+
+def _inv_not_named_empty_group():
+    edzed.Input('s0', initdef=0)
+    edzed.Not('n0').connect(x=())
+
+
+class _OneInput(edzed.CBlock):
+    def calc_output(self):
+        return self._in['x']
+
+    def start(self):
+        super().start()
+        self.check_signature({'x': None})
+
+
+class _GroupOf2(edzed.CBlock):
+    def calc_output(self):
+        return self._in['g']
+
+    def start(self):
+        super().start()
+        self.check_signature({'g': 2})
+
+
+class _GroupRange(edzed.CBlock):
+    def calc_output(self):
+        return self._in['g']
+
+    def start(self):
+        super().start()
+        self.check_signature({'g': (1, 2)})
+
+
+def _inv_custom_single_got_empty_group():
+    edzed.Input('s0', initdef=0)
+    _OneInput('c0').connect(x=[])
+
+
+def _inv_custom_single_got_group1():
+    s = edzed.Input('s0', initdef=0)
+    _OneInput('c0').connect(x=[s])
+
+
+def _inv_custom_group2_got_single():
+    s = edzed.Input('s0', initdef=0)
+    _GroupOf2('c0').connect(g=s)
+
+
+def _inv_custom_group2_got_0():
+    edzed.Input('s0', initdef=0)
+    _GroupOf2('c0').connect(g=[])
+
+
+def _inv_custom_group2_got_3():
+    s = edzed.Input('s0', initdef=0)
+    _GroupOf2('c0').connect(g=[s, s, s])
+
+
+def _inv_custom_range_got_0():
+    edzed.Input('s0', initdef=0)
+    _GroupRange('c0').connect(g=())
+
+
+def _inv_custom_range_got_3():
+    s = edzed.Input('s0', initdef=0)
+    _GroupRange('c0').connect(g=(s, s, s))
+
+
+def _inv_custom_range_got_single():
+    s = edzed.Input('s0', initdef=0)
+    _GroupRange('c0').connect(g=s)
+
+
 def _inv_compare_two():
     s = edzed.Input('s0', initdef=0)
     edzed.Compare('k0', low=1, high=2).connect(s, s)
